@@ -44,6 +44,7 @@ func init() {
 		{"C16", "descriptor", props.C16descriptor},
 		{"C14", "seencontract", props.C14seenContract},
 		{"C05", "native", props.C05native},
+		{"C04", "native", props.C05native},
 		{"C12", "signdiff", props.C12signDiff},
 		{"C12", "operands", props.C12usesOperands},
 		{"C06", "honestlen", props.C06honest},
